@@ -5,6 +5,7 @@ package main
 
 import (
 	"fmt"
+	"os"
 	"go/ast"
 	"go/constant"
 	"go/token"
@@ -94,8 +95,15 @@ func (e *Env) lookup(name string) (Val, bool) {
 			if sc := e.fr.fn.Pkg.Pkg.Scope().Innermost(e.pos); sc != nil {
 				if _, obj := sc.LookupParent(name, e.pos); obj != nil {
 					if _, isVar := obj.(*types.Var); isVar && obj.Parent() != e.fr.fn.Pkg.Pkg.Scope() {
-						if a := allocFor(e.fr.fn, obj); a != nil && e.fr.cells[a] == nil {
-							return zeroVal(obj.Type()), true
+						a := allocFor(e.fr.fn, obj)
+						if os.Getenv("GOVC_DEBUG") != "" {
+							fmt.Fprintf(os.Stderr, "  lookup %s: obj=%v alloc=%v hascell=%v\n", name, obj.Pos(), a != nil, a != nil && e.fr.cells[a] != nil)
+						}
+						if a != nil {
+							c := e.fr.cells[a]
+							if _, live := e.st.cellv[c]; c == nil || !live {
+								return zeroVal(obj.Type()), true
+							}
 						}
 					}
 				}
@@ -645,6 +653,14 @@ func (e *Env) evalCall(n *ast.CallExpr) Val {
 			evalFail("as: unknown type %q", name)
 		}
 		return e.x.unbox(iv, t)
+	case "held":
+		// held(&mu): ghost lock state
+		v := e.eval(n.Args[0])
+		p, ok := v.(Ptr)
+		if !ok {
+			evalFail("held needs a pointer to a mutex")
+		}
+		return Bool{"(select " + e.x.heldArr(e.st) + " " + ptrTerm(p) + ")"}
 	case "has":
 		// has(m, k): key k is present in map m
 		v := e.eval(n.Args[0])
